@@ -8,7 +8,7 @@
  *     #include "math/elliptic_curve.h" / "crypto/dsa/ecdsa.h"   (real code under test, now calling the stubs)
  *
  * Redirected: bn_mod, bn_mod_add, bn_mod_sub, bn_mod_mult, bn_mod_mult_digit, bn_mod_square, bn_mod_exp_digit,
- *             bn_mod_inv (= bn_mod_inv_bin), bn_import_be_hex (constructor only) [, bn_mod_reduce with -DSPEC_MOD_REDUCE] [, bn_mod_sqrt with -DSPEC_MOD_SQRT].
+ *             bn_mod_inv (= bn_mod_inv_bin), bn_import_be_hex (constructor only), bn_import_be_bin, bn_export_be_bin [, bn_mod_reduce with -DSPEC_MOD_REDUCE] [, bn_mod_sqrt with -DSPEC_MOD_SQRT].
  *
  * Each stub is the value-level transliteration of the real function's text: the real function is a composition of
  * bn_add / bn_sub / bn_mult / bn_mult_digit / bn_div whose contracts (exact result modulo 2^capacity, EOVERFLOW /
@@ -442,6 +442,52 @@ spec_bn_import_be_hex(bn_p bn, const uint8_t *buf, size_t buf_size) {
 	return (0);
 }
 #define bn_import_be_hex	spec_bn_import_be_hex
+
+/* bn_import_be_bin / bn_export_be_bin: same one-before-the-start pointer idiom in the real loops
+ * (`for (; r_pos >= buf; r_pos --)`), reported by CBMC's pointer checks and invisible to ASan; byte <-> bignum
+ * conversion is C01's subject.  The stubs touch exactly buf[0 .. buf_size), so an over-read / over-write of the
+ * CALLER's buffer is still an object-bounds violation.  Used on freshly initialised bignums only (checked). */
+static inline int
+spec_bn_import_be_bin(bn_p bn, const uint8_t *buf, size_t buf_size) {
+	sbv_t v = 0;
+
+	if (NULL == bn || NULL == buf)
+		return (EINVAL);
+	if (0 == bn->count || 0 == buf_size)
+		return (EINVAL);
+	if ((bn->count * BN_DIGIT_SIZE) < buf_size)
+		return (EOVERFLOW);
+	SB_REQ(0 == bn->digits && buf_size <= 3);
+	for (size_t i = 0; i < 3; i ++) {
+		if (i < buf_size)
+			v = ((v << 8) | buf[i]);
+	}
+	sb_set(bn, v);
+	return (0);
+}
+static inline int
+spec_bn_export_be_bin(bn_p bn, uint32_t flags, uint8_t *buf, size_t buf_size, size_t *buf_size_ret) {
+	sbv_t v;
+
+	if (NULL == bn || NULL == buf)
+		return (EINVAL);
+	if (0 == buf_size)
+		return (EINVAL);
+	SB_PRE(bn);
+	SB_REQ(0 == flags && buf_size <= 4);
+	if (NULL != buf_size_ret)
+		(*buf_size_ret) = buf_size;
+	if (bn->digits > buf_size)
+		return (EOVERFLOW);
+	v = sb_val(bn);
+	for (size_t i = 0; i < 4; i ++) {
+		if (i < buf_size)
+			buf[i] = (uint8_t)(v >> (8 * ((buf_size - 1 - i) & 3)));
+	}
+	return (0);
+}
+#define bn_import_be_bin	spec_bn_import_be_bin
+#define bn_export_be_bin	spec_bn_export_be_bin
 
 #define bn_mod			spec_bn_mod
 #define bn_mod_add		spec_bn_mod_add
